@@ -120,6 +120,14 @@ def check_corruptions(kind, header, blocks, parse, err):
                 corrupt.append((i, 'let: x = (', 'invalid let expression'))
             if l.startswith('field:'):
                 corrupt.append((i, 'field: note', 'malformed field'))
+                # an invalid expression that a later line of the same rule overwrites is still a malformed line of the file
+                corrupt.append((i, 'field: note = import os\nfield: note = "n"', 'invalid field expression'))
+            if l.startswith('match:') and 'NETFLIX' in l:
+                corrupt.append((i, 'match: contains(\n' + l, 'invalid match expression'))
+            if l.startswith('tags:'):
+                corrupt.append((i, 'tags: a, {split(}', 'malformed dynamic tag'))
+                corrupt.append((i, 'tags: {lowercase(source}, b', 'malformed dynamic tag'))
+                corrupt.append((i, 'tags: {import os}', 'malformed dynamic tag'))
                 corrupt.append((i, 'field: note = lambda: 1', 'invalid field expression'))
             if l.startswith('priority:'):
                 corrupt.append((i, 'priority: high', 'malformed priority'))
